@@ -540,6 +540,57 @@ def verifier_dispatch(ctx):
         A.require('%s/scheme-selected-by-input-alg-only' % label, paths, r_disp, replay=RB)
 
 
+def scheme_verifiers(ctx):
+    """Ed25519Verifier / Secp256R1Verifier / Secp256K1Verifier: Ok only from the primitive's verification over the caller's key, the
+    *whole* decoded signature converted by a length-checking conversion, and the item's signing input"""
+    prog, info = load(['identity_eddsa_verifier', 'identity_ecdsa_verifier'], src_only=['identity_jose'])
+    A = Auditor(ctx, prog)
+    vi = prog.structs['VerificationInput']
+    RB = {'scenario': 'verifier_dispatch'}
+
+    def from_input(t, field):
+        for s_ in subterms(t):
+            fp = field_path(s_) if isinstance(s_, tuple) and s_ and s_[0] in ('field', 'ref', 'deref') else None
+            if fp and fp[0] == 'input' and fp[1] and fp[1][0][1] == vi.index(field):
+                return True
+        return False
+
+    for label, rx, prim in (('Ed25519Verifier', r'ed25519_verifier::<impl at [^>]*>::verify$', r'ed25519::PublicKey::verify$|PublicKey::verify$'),
+                            ('Secp256R1Verifier', r'secp256r1::<impl at [^>]*>::verify$', r'Verifier<.*>>::verify$|::verify$'),
+                            ('Secp256K1Verifier', r'secp256k1::<impl at [^>]*>::verify$', r'Verifier<.*>>::verify$|::verify$')):
+        f = prog.one(rx)
+        paths, ex = A.paths(f, inline=rx[:-1] + r'::\{closure')
+
+        def r_sv(p, prim=prim, label=label):
+            if p.kind != 'return' or not p.is_ok():
+                return None
+            conv = [c for c in p.calls if re.search(r'TryFrom<&\[u8\]>>::try_from$|TryFrom<&.*\[u8\]>>::try_from$|Signature::try_from$|Signature::from_slice$', c.name)
+                    and from_input(('x', tuple(c.args)), 'decoded_signature')]
+            if not conv:
+                # the conversion into a fixed-size array is modelled precisely (no call record): the path must then imply that the
+                # decoded signature has exactly the primitive's signature length and the array is made of its bytes
+                dr = [c for c in p.calls if re.search(r'Deref>::deref$', c.name) and from_input(('x', tuple(c.args)), 'decoded_signature')]
+                fb = [c for c in p.calls if re.search(r'Signature::from_bytes$', c.name)]
+                if dr and fb and isinstance(fb[0].argvals[0], VAgg) and len(fb[0].argvals[0].fields) > 0:
+                    n = len(fb[0].argvals[0].fields)
+                    sb = ex.sym_bytes(dr[0].ret)
+                    if p.implies(sb.len == n) and 'decoded_signature' not in '' and term_str(dr[0].ret) in term_str(fb[0].args[0]):
+                        vs = [c for c in p.calls if re.search(prim, c.name) and from_input(('x', tuple(c.args)), 'signing_input')]
+                        return None if vs else 'accepted without the primitive verifying over the item\'s signing input'
+                return 'the decoded signature is not converted by a length-checking conversion of the whole byte string'
+            a0 = strip(conv[0].args[0])
+            while isinstance(a0, tuple) and a0 and a0[0] == 'app' and re.search(r'Deref>::deref$|AsRef<.*>>::as_ref$|as_slice$', a0[1]):
+                a0 = strip(a0[2][0])
+            fp = field_path(a0)
+            if not fp or fp[0] != 'input':
+                return 'the signature handed to the conversion is not the decoded signature as a whole: %s' % term_str(conv[0].args[0])[:100]
+            vs = [c for c in p.calls if re.search(prim, c.name) and from_input(('x', tuple(c.args)), 'signing_input')]
+            if not vs:
+                return 'accepted without the primitive verifying over the item\'s signing input'
+            return None
+        A.require('%s/whole-signature-and-signing-input-reach-the-primitive' % label, paths, r_sv, replay=RB)
+
+
 def main(ctx):
     prog, info = load(CRATES)
     ctx.extra['mir'] = info
@@ -549,3 +600,4 @@ def main(ctx):
     ctx.assumptions.append('callees not inlined are uninterpreted functions of their arguments; pure callees are functionally consistent')
     guarded(ctx, 'jws binding audit', 'M', lambda: run(ctx, prog))
     guarded(ctx, 'verifier dispatch', 'M', lambda: verifier_dispatch(ctx))
+    guarded(ctx, 'scheme verifiers', 'M', lambda: scheme_verifiers(ctx))
